@@ -81,9 +81,18 @@ def renderC (d : CDict) : String :=
   | none => head ++ " ~"
   | some rs => joinWith " | " (head :: rs.map renderR)
 
+/-- the cloud token `terra` = an azure dict read by `TerraAzureSlimInstanceConfig.from_dict` -/
+def untag (rest : List String) : List String × Bool :=
+  match rest with
+  | "terra" :: ts => ("azure" :: ts, true)
+  | ts => (ts, false)
+
+def load (d : CDict) (terra : Bool) : Option Config := if terra then Config.fromDictTerra d else Config.fromDict d
+
 def handle (line : String) : String :=
   match words line with
-  | "q" :: rest =>
+  | "q" :: rest0 =>
+    let (rest, terra) := untag rest0
     (do
       let (d, rest) ← cdict? rest
       match rest with
@@ -91,18 +100,19 @@ def handle (line : String) : String :=
         let cpu ← cpu.toNat?
         let mem ← mem.toNat?
         let ext ← ext.toNat?
-        match Config.fromDict d with
+        match load d terra with
         | none => pure "err"
         | some c =>
           match c.quantifiedResources cpu mem ext with
           | none => pure "err"
           | some qs => pure (joinWith " " ("ok" :: qs.map fun (p : String × Nat) => s!"{p.1}:{p.2}"))
       | _ => none).getD "bad-op"
-  | "d" :: rest =>
+  | "d" :: rest0 =>
+    let (rest, terra) := untag rest0
     (do
       let (d, rest) ← cdict? rest
       if rest ≠ [] then none
-      match Config.fromDict d with
+      match load d terra with
       | none => pure "err"
       | some c => pure (renderC c.toDict)).getD "bad-op"
   | _ => "bad-op"
